@@ -127,8 +127,9 @@ let handle toks =
              | _ -> "-") in
            (cls s, view) in
          (* a chunk without dictionary_page_offset whose first page identifies itself as a dictionary page *)
-         let self_dict = hasdict <> 1 && (match Robust_ext.load (hdr_of h1) ck p Robust_ext.FirstDataPage f dataoff with
-             | Robust_ext.Ok l -> int_of_z l.Robust_ext.ld_header.Robust_ext.ph_type = 2
+         (* the code decides this right after the header parse, before the size checks *)
+         let self_dict = hasdict <> 1 && (match hdr_of h1 [] with
+             | Robust_ext.HdrOk (h, _) -> int_of_z h.Robust_ext.ph_type = 2
              | _ -> false) in
          let dictoff = if self_dict then dataoff else dictoff in
          if hasdict = 1 || self_dict then begin
